@@ -34,9 +34,10 @@
      amaxsum_quiescent_fixed_point      at quiescence the costs dicts solve the message equations;
      amaxsum_fixed_point_exact          on a forest every solution is the exact min/max-marginal (up to a constant);
      amaxsum_tree_exact                 hence the selection is the optimum.
-   The unrestricted statement (default start_messages = leafs) stays refuted below. *)
+   The unrestricted statement (default start_messages = leafs) stays refuted below, and so does the async statement
+   with the default stability 0.1 (amaxsum_tree_exact_default_stability_refuted). *)
 From Coq Require Import QArith.
-From PyDcop Require Import Base Net M_SyncMixin P_SyncMixin M_MaxSum P_MaxSum P_MaxSum2 P_MaxSum3 P_MaxSum4 P_MaxSum5 P_AMaxSum2.
+From PyDcop Require Import Base Net M_SyncMixin P_SyncMixin M_MaxSum P_MaxSum P_MaxSum2 P_MaxSum3 P_MaxSum4 P_MaxSum5 P_AMaxSum2 P_AMaxSum3.
 Local Open Scope Z_scope.
 
 (* factor -> variable message: entry d is the optimum, over all assignments of the factor's other variables,
@@ -252,6 +253,17 @@ Theorem isolated_variable_initial_value_refuted :
     let cf := fst (run (amaxsum_proto P G) sched) in
     quiescent G cf = true /\ selected_async G cf <> map Some a.
 Proof. exact isolated_variable_keeps_initial_value. Qed.
+
+(* stability 0 is essential for amaxsum_tree_exact too: default stability 0.1, start_messages = all, 5-variable chain,
+   every other hypothesis of the theorem holds, the run is quiescent and the selection is not the optimum *)
+Theorem amaxsum_tree_exact_default_stability_refuted :
+  exists G a H sched,
+    let P := par (1 # 10) 2 in
+    wf_dcop G /\ (p_damp P == 0)%Q /\ spoken_ok P /\ unique_optimum (p_max P) G a /\ forest_ok_b G H = true /\
+    (forall x vd, In (x, vd) (d_vars G) -> nbrs G x = [] -> v_init vd = None) /\
+    let cf := fst (run (amaxsum_proto P G) sched) in
+    quiescent G cf = true /\ selected_async G cf <> map Some a.
+Proof. exact amaxsum_default_stability_freezes. Qed.
 
 (* non-vacuity: concrete runs that meet the hypotheses of the full statements and reach the optimum *)
 Example maxsum_chain4_exact :
